@@ -193,7 +193,12 @@ def read_domain_tree(tree):
         elif h == ":predicates":
             for p in sec[1:]:
                 if p and p[0] == ":private":
-                    raise Unsupported("private predicates")
+                    # MA-PDDL: (:private (pred ...) (pred ...)) - the private predicates are ordinary predicates here
+                    for q in p[1:]:
+                        if not isinstance(q, list):
+                            raise Unsupported("private predicate group with an agent variable")
+                        D["predicates"][q[0]] = [ty for _, ty in typed_list(q[1:])]
+                    continue
                 D["predicates"][p[0]] = [ty for _, ty in typed_list(p[1:])]
         elif h == ":functions":
             items = sec[1:]
@@ -237,7 +242,16 @@ def read_problem_tree(tree, D):
         elif h == ":domain":
             P["domain"] = sec[1]
         elif h == ":objects":
-            for n, p in typed_list(sec[1:]):
+            items = []
+            for x in sec[1:]:
+                if isinstance(x, list):
+                    if not x or x[0] != ":private":
+                        raise Unsupported("nested list in :objects")
+                    for n, p in typed_list(x[1:]):
+                        P["objects"][n] = p
+                else:
+                    items.append(x)
+            for n, p in typed_list(items):
                 P["objects"][n] = p
         elif h == ":init":
             for x in sec[1:]:
